@@ -8,6 +8,7 @@ from .isomsg import *
 from vsym.rope import Tok
 
 PROPERTY = 'C20'
+PYTHON_O = ['rows1/latin_1/1014', 'cli/entry-points']      # obligations that are also explored with the modules compiled as under python -O
 ASSUMPTIONS = [
     'the CSV layer is a row-level stub (DictReader yields the supplied row dicts, DictWriter records rows restricted to fieldnames): quoting of commas, '
     'quotes and spaces is done by the C _csv module and is outside this technique; the claim is cardutil\'s row -> dict -> message -> dict -> row path',
@@ -67,8 +68,8 @@ def cell(col, cfgs, tag, pdsmax=200):
         n = sym_int(name, 0, 10 ** w - 1)
         return mk('t', [Num(n, 1)]), n, lambda ev: str(ev(n))
     if pt == 'datetime':
-        d = SymDate(name)
-        return mk('t', [Tok(d, ISO, 19)]), d, lambda ev: {'date': True}
+        d = SymDate(name, fmt=cfg.get('field_date_format', '%y%m%d'))
+        return mk('t', [Tok(d, ISO, 19)]), d, lambda ev: d.witness(ev)
     if cfg['field_type'] == 'FIXED':
         v = Source(name, 't', w).rope()
         return v, v, lambda ev: concretize(v, ev)
@@ -123,7 +124,7 @@ def csv_roundtrip(nrows, enc, blocked, shapes=None, pdsmax=200):
                 if isinstance(v, (int, SInt)) and not isinstance(v, bool):
                     require(isinstance(g, (int, SInt)) and not isinstance(g, bool) and s_eq(g, v), 'row %d column %s: number changed' % (i + 1, c), key='C20/value', replay=rp)
                 elif isinstance(v, SymDate):
-                    require(g is v, 'row %d column %s: date changed' % (i + 1, c), key='C20/value', replay=rp)
+                    require(models.dates_equal(g, v), 'row %d column %s: date changed' % (i + 1, c), key='C20/value', replay=rp)
                 else:
                     require(g is not None and g != '', 'row %d column %s lost' % (i + 1, c), key='C20/value', replay=rp)
                     req_eq(g, v, 'row %d column %s changed' % (i + 1, c), key='C20/value', replay=rp)
@@ -178,6 +179,56 @@ def cli_entry_points():
     return h
 
 
+def cli_long(ipm_enc, noblock):
+    """the command entry points with a file of several blocks' worth of records whose content is arbitrary (so that whatever the commands
+    look at in the file to decide how to read it, the user's blocking option has to win)"""
+    import contextlib
+    import io as _io
+
+    def h():
+        core.FUEL.set(60)
+        install_dateutil_stub()
+        m = M()
+        cfgs = m.config.config['bit_config']
+        rows, exps, wits = [], [], []
+        for i in range(3):
+            row = {'MTI': '1240'}
+            exp = {}
+            wit = {'MTI': '1240'}
+            for c, kw in (('DE2', {}), ('PDS0148', {'pdsmax': 720})):
+                row[c], exp[c], w = cell(c, cfgs, '_l%d' % i, **kw)
+                wit[c] = w
+            if i < 3:
+                assume(rlen(row['PDS0148']) >= 690)
+            rows.append(row)
+            exps.append(exp)
+            wits.append(wit)
+        cols = list(rows[0])
+
+        def rp():
+            return {'kind': 'cli_rows', 'args': {'ipm_enc': ipm_enc, 'noblock': noblock, 'cols': cols,
+                                                 'rows': [{c: (w(ev) if callable(w) else w) for c, w in wit.items()} for wit in wits]}}
+        core.set_fallback(rp, 'C20/concretised')
+        models.VFS.reset()
+        models.VFS.files['in.csv'] = models.CsvIn(cols, rows)
+        with contextlib.redirect_stdout(_io.StringIO()):
+            with guard('mci_csv_to_ipm.cli_run', 'C20/cli-exception', rp):
+                m.mci_csv_to_ipm.cli_run(in_filename='in.csv', out_filename='out.ipm', in_encoding=None, out_encoding=ipm_enc,
+                                         no1014blocking=noblock, config_file=None, debug=False)
+            with guard('mci_ipm_to_csv.cli_run', 'C20/cli-exception', rp):
+                rc = m.mci_ipm_to_csv.cli_run(in_filename='out.ipm', out_filename='back.csv', in_encoding=ipm_enc, out_encoding=None,
+                                              no1014blocking=noblock, config_file=None, debug=False)
+        require(rc is None, 'extraction of the file just written reported an error', key='C20/cli', replay=rp)
+        out = models.VFS.files.get('back.csv')
+        require(out is not None and len(out.rows) == len(rows), 'extracted %s rows from %d' % (len(out.rows) if out is not None else None, len(rows)),
+                key='C20/cli', replay=rp)
+        for i, exp in enumerate(exps):
+            for c, v in exp.items():
+                req_eq(out.rows[i].get(c), v, 'row %d column %s changed' % (i + 1, c), key='C20/cli', replay=rp)
+        return {'sample': {'ipm_enc': ipm_enc, 'noblock': noblock, 'lens': [ev(rlen(r['PDS0148'])) for r in rows]}, 'replay': rp()}
+    return h
+
+
 def obligations(tier):
     q = tier == 'quick'
     obs = []
@@ -192,6 +243,10 @@ def obligations(tier):
     obs.append(Ob('cli/entry-points', cli_entry_points(), 600,
                   'cli_run of both tools on a virtual file system: every combination of CSV input encoding, CSV output encoding, IPM encoding and blocking; one row', _funcs,
                   'argparse parsing and the operating system file layer'))
+    for ipm_enc, noblock in ((('cp500', True), (None, True)) if q else (('cp500', True), (None, True), ('cp037', True), ('cp500', False), (None, False))):
+        obs.append(Ob('cli/three-long-rows/%s/%s' % (ipm_enc or 'default', 'vbs' if noblock else '1014'), cli_long(ipm_enc, noblock), 900,
+                      'cli_run of both tools, three rows with a 690..720 character PDS value each (file of more than two blocks), arbitrary content', _funcs,
+                      'argparse parsing and the operating system file layer'))
     if not q:
         obs.append(Ob('rows3/cp037/1014', csv_roundtrip(3, 'cp037', True, shapes=[SHAPES20[0], SHAPES20[2]]), 3000, 'three rows, each of either of two shapes', _funcs))
     return obs
